@@ -355,6 +355,8 @@ module Mg = struct
       | ("assignshared" | "removeshared" | "getshared") :: _ :: p :: _ -> ignore (reg_shared (int_of_string p))
       | "dep" :: a :: pals -> ignore (reg_pal (int_of_string a)); Stdlib.List.iter pal_tok pals
       | "chunkfn" :: _ :: _ :: pals -> Stdlib.List.iter pal_tok pals
+      | "mkjob" :: _ :: rest -> Stdlib.List.iter (fun tok -> if tok <> "c" then
+            ignore (reg_pal (int_of_string (Stdlib.List.hd (String.split_on_char ':' tok))))) rest
       | _ -> ()) lines;
     let n = !next_cid in
     let arr = Array.make n (Palette.pal_info O O) in
@@ -371,6 +373,13 @@ module Mg = struct
       | ["threads"; n] -> maxthr := max !maxthr (int_of_string n + 1)     (* onLock: max(cores, threadCount() + 1) buffers *)
       | _ -> ()) lines;
     let st = ref (init (nat_of_int !maxthr) cis) in
+    let jobs : (job * bool) array ref = ref [||] in      (* job, require_entity *)
+    let workers = ref 0 and cap = ref 16384 in
+    Stdlib.List.iter (fun l -> match split_ws l with
+      | ["threads"; n] -> workers := int_of_string n
+      | ["chunkcap"; n] -> if int_of_string n > 0 then cap := int_of_string n
+      | _ -> ()) lines;
+    if !workers = 0 then workers := 15;
     issued := [];
     let dead = ref false in
     let opn = ref 0 in
@@ -441,6 +450,39 @@ module Mg = struct
          | "dep", a :: pals -> let (m, _) = parse_pals pals in apply (ODep (cid a, n_of_int m))
          | "verchunk", [n] -> apply (OVerChunk (ni n))
          | "chunkfn", mn :: mx :: pals -> let (m, _) = parse_pals pals in apply (OChunkFn (ni mn, ni mx, n_of_int m))
+         | "mkjob", ent :: rest ->
+             let reqs = ref [] and chk = ref 0 and inchk = ref false in
+             Stdlib.List.iter (fun tok ->
+               if tok = "c" then inchk := true
+               else if !inchk then chk := !chk lor (1 lsl (reg_pal (int_of_string tok)))
+               else (match String.split_on_char ':' tok with
+                     | [p; fl] -> let fl = int_of_string fl in
+                         reqs := !reqs @ [((nat_of_int (reg_pal (int_of_string p)), fl land 1 = 1), fl land 2 = 0)]
+                     | _ -> ())) rest;
+             jobs := Array.append !jobs [| ({ j_reqs = !reqs; j_check = n_of_int !chk; j_last = n_of_int 4294967295 }, ent <> "0") |];
+             finish !st (Printf.sprintf "%d req=%s chk=%s" (Array.length !jobs - 1)
+               (String.concat "," (Stdlib.List.map (fun ((c, cst), req) -> Printf.sprintf "%d:%d" (int_of_nat c) ((if cst then 1 else 0) lor (if req then 0 else 2))) !reqs))
+               (match bits_of_key !chk with [] -> "-" | l -> String.concat "," (Stdlib.List.map string_of_int l)))
+         | "runjob", j :: mode :: rest ->
+             let j = int_of_string j in
+             let (jb, want_ent) = !jobs.(j) in
+             let tov = (match rest with t :: _ -> int_of_string t | [] -> 0) in
+             (match step !st (ORunJob (jb, mode = "1", nat_of_int tov, nat_of_int !workers, nat_of_int !cap)) with
+              | Ok (s', RJob (last, arrays)) ->
+                  !jobs.(j) <- ({ jb with j_last = last }, want_ent);
+                  let arr_str ((task, idx), ents) =
+                    Printf.sprintf "t%d:n%d:%s" (int_of_nat task) (int_of_nat idx)
+                      (String.concat "," (Stdlib.List.map (fun (h, cells) ->
+                         (if want_ent then hname h else "?") ^
+                         String.concat "" (Stdlib.List.mapi (fun k c ->
+                           match c with
+                           | None -> "/null"
+                           | Some v -> let ((cid, _), _) = Stdlib.List.nth jb.j_reqs k in
+                               let inf = Stdlib.List.nth s'.cinfos (int_of_nat cid) in
+                               if inf.ci_hasval then "/" ^ cell_str v else "/_") cells)) ents)) in
+                  finish s' (String.concat " " (("last=" ^ string_of_int (int_of_n last)) :: Stdlib.List.map arr_str arrays))
+              | Ok _ -> dead := true
+              | Err e -> Printf.printf "ERR %s\n" (err_name e); dead := true)
          | "teardown", _ ->
              (match step !st OTeardown with
               | Ok (s', _) -> print_endline "R";
@@ -520,7 +562,7 @@ module MgS = struct
         let nk h = nat_of_int (parse_k h) in
         (match opname, args with
          | ("reg" | "regs" | "maxthreads" | "threads" | "chunkcap"), _ -> ()
-         | ("arm" | "disarm" | "teardown" | "verchunk" | "chunkfn" | "getconst" | "getmut" | "has" | "markdirty" | "valid" | "archof" | "getshared"), _ -> dump !st
+         | ("arm" | "disarm" | "teardown" | "mkjob" | "runjob" | "verchunk" | "chunkfn" | "getconst" | "getmut" | "has" | "markdirty" | "valid" | "archof" | "getshared"), _ -> dump !st
          | ("create" | "createarch"), tid :: pals -> let (m, sids) = Mg.parse_pals pals in
              apply (XoCreate (ni tid, n_of_int m, Stdlib.List.map nat_of_int sids, opname = "createarch"))
          | "destroy", [tid; h] -> apply (XoDestroy (ni tid, nk h))
